@@ -74,6 +74,56 @@ macro_rules! bq_pack {
         }
     };
 }
+macro_rules! bq_from_vec {
+    ($name:ident, $dim:expr) => {
+        /// from_vec (the conversion path of prepare_changing_distance) stores the same words as
+        /// from_slice: sign pattern at the declared dimension, zero padding (C12: "whichever
+        /// conversion path is used").
+        #[kani::proof]
+        #[kani::unwind(70)]
+        #[kani::stub(alloc::fmt::format, stub_format)]
+        fn $name() {
+            const DIM: usize = $dim;
+            const WORDS: usize = (DIM + 63) / 64;
+            let xb: [u32; DIM] = kani::any();
+            let mut x: Vec<f32> = Vec::with_capacity(DIM);
+            let mut i = 0;
+            while i < DIM {
+                x.push(f32::from_bits(xb[i]));
+                i += 1;
+            }
+            let v = UnalignedVector::<BinaryQuantized>::from_vec(x);
+            let bytes = v.as_bytes();
+            assert!(bytes.len() == WORDS * 8);
+            let mut w = 0;
+            while w < WORDS {
+                let mut a = [0u8; 8];
+                let mut j = 0;
+                while j < 8 {
+                    a[j] = bytes[w * 8 + j];
+                    j += 1;
+                }
+                let word = u64::from_ne_bytes(a);
+                let mut expect: u64 = 0;
+                let mut b = 0;
+                while b < 64 {
+                    let idx = w * 64 + b;
+                    if idx < DIM && sign_clear(xb[idx]) {
+                        expect |= 1u64 << b;
+                    }
+                    b += 1;
+                }
+                assert!(word == expect);
+                w += 1;
+            }
+            kani::cover!(xb[0] == 0x8000_0000);
+            core::mem::forget(v);
+        }
+    };
+}
+bq_from_vec!(bq_from_vec_dim3, 3);
+bq_from_vec!(bq_from_vec_dim65, 65);
+
 bq_pack!(bq_pack_dim1, 1, 70);
 bq_pack!(bq_pack_dim5, 5, 70);
 bq_pack!(bq_pack_dim64, 64, 70);
@@ -175,4 +225,33 @@ fn bq_cosine_geometry_dim5() {
     }
     kani::cover!(h == 0 && d == 0.0);
     kani::cover!(h == 2 && h2 == 3);
+}
+
+
+/// Quantised cosine over a whole word: for any two stored 64-bit sign patterns the distance is
+/// exactly h / 64 for every h in 0..=64 -- h = 32 (cos = 0) included -- symmetric, zero iff h = 0.
+#[kani::proof]
+#[kani::unwind(70)]
+#[kani::stub(alloc::fmt::format, stub_format)]
+fn bq_cosine_geometry_word() {
+    let wa: u64 = kani::any();
+    let wb: u64 = kani::any();
+    let (ba, bb) = (wa.to_ne_bytes(), wb.to_ne_bytes());
+    let ca = UnalignedVector::<BinaryQuantized>::from_bytes_unchecked(&ba);
+    let cb = UnalignedVector::<BinaryQuantized>::from_bytes_unchecked(&bb);
+    let mut h = 0u32;
+    let mut i = 0;
+    while i < 64 {
+        if ((wa ^ wb) >> i) & 1 == 1 {
+            h += 1;
+        }
+        i += 1;
+    }
+    let (la, lb) = (leaf_of::<BinaryQuantizedCosine>(ca), leaf_of::<BinaryQuantizedCosine>(cb));
+    let d = BinaryQuantizedCosine::built_distance(&la, &lb);
+    assert!(d == h as f32 / 64.0);
+    assert!(BinaryQuantizedCosine::built_distance(&lb, &la) == d);
+    kani::cover!(h == 32);
+    kani::cover!(h == 64);
+    kani::cover!(h == 0);
 }
